@@ -467,3 +467,112 @@ Example C05_unaliased_colon_literal_one_column :
   sdirect q [(s, JS (VStr txt))] = SDRow [(sa, CVal (JS (VStr sa)))] /\
   chk_columns (sq_columns q) [sa] = None /\ si_wf (SLit 39 sa None).
 Proof. vm_compute. repeat split; try reflexivity; try (left; reflexivity); try discriminate. intros H; repeat (destruct H as [H|H]; [discriminate|]); exact H. Qed.
+
+(* ================= overflow strategy `drop` (the default): Model/LossyFifo.v, Proofs/LossyFifoProofs.v =================
+   A full input buffer makes the caller of Emit retry and finally drop the row; the producer waits inside
+   Emit meanwhile (inline = true).  For every capacity and every schedule of emissions, retries, give-ups
+   and consumer steps: *)
+From SV Require Import Model.LossyFifo Proofs.LossyFifoProofs.
+
+(* the consumer reads a FIFO: handled ++ buffered = accepted *)
+Theorem C05_drop_fifo : forall inline cap ops,
+  let s := lrun inline cap ops in l_done s ++ l_chan s = l_acc s.
+Proof. exact lossy_fifo. Qed.
+Print Assumptions C05_drop_fifo.
+
+(* a drop never reorders: the synchronous sink holds the results of a prefix of the accepted rows, and the
+   accepted rows are a subsequence of the emission order *)
+Theorem C05_drop_keeps_order : forall cap q ops,
+  let s := lrun true cap ops in
+  l_sink q s ++ map (direct q) (l_chan s) = map (direct q) (l_acc s) /\
+  subseq (l_acc s) (lemitted ops).
+Proof. exact lossy_sink. Qed.
+Print Assumptions C05_drop_keeps_order.
+
+Theorem C05_drop_delivered_in_order : forall cap q ops,
+  subseq (l_delivered_rows q (lrun true cap ops)) (lemitted ops).
+Proof. exact lossy_delivered_in_order. Qed.
+Print Assumptions C05_drop_delivered_in_order.
+
+(* the extracted checker of the D lines (rc_check on the ids) accepts every run of the model *)
+Theorem C05_drop_passes_checker : forall (f : xrow -> Z) cap q ops,
+  rc_check (map f (lemitted ops)) (map f (l_delivered_rows q (lrun true cap ops))) = RCOk.
+Proof. exact lossy_passes_checker. Qed.
+Print Assumptions C05_drop_passes_checker.
+
+(* every emitted row is accepted, parked or dropped at most once *)
+Theorem C05_drop_accounting : forall cap ops,
+  let s := lrun true cap ops in
+  (length (l_acc s) + length (l_parked s) + l_dropped s <= length (lemitted ops))%nat.
+Proof. exact lossy_no_loss_accounting. Qed.
+Print Assumptions C05_drop_accounting.
+
+(* ... and the producer's waiting is needed: with the retry window spent on a helper goroutine
+   (inline = false) Emit returns while the row is parked, and the next row overtakes it.  Capacity 1, rows
+   {id:1} {id:2} {id:3}: row 2 finds the buffer full, the consumer takes row 1, row 3 gets the free slot,
+   the helper's retry of row 2 succeeds after the consumer took row 3. *)
+Example C05_helper_retry_reorders :
+  let id := [105;100]%N in
+  let q := {| q_items := [ICol id id]; q_where := None |} in
+  let r := fun n => [(id, VNum (inject_Z n))] in
+  let f := fun row : xrow => match xlookup row id with Some (VNum x) => Qnum x | _ => 0%Z end in
+  let ops := [LEmit (r 1%Z); LEmit (r 2%Z); LStep; LEmit (r 3%Z); LStep; LRetry; LStep] in
+  l_done (lrun false 1 ops) = [r 1%Z; r 3%Z; r 2%Z] /\
+  rc_check (map f (lemitted ops)) (map f (l_delivered_rows q (lrun false 1 ops))) = RCOrder 2 3 /\
+  l_done (lrun true 1 ops) = [r 1%Z; r 2%Z] /\
+  rc_check (map f (lemitted ops)) (map f (l_delivered_rows q (lrun true 1 ops))) = RCOk.
+Proof. vm_compute. repeat split; reflexivity. Qed.
+
+(* ================= the bridge's program cache (Model/ProgCache.v, Proofs/ProgCacheProofs.v) =================
+   A compiled program is cached process-wide by the expression text and is type-specialised on the row it
+   was compiled against.  With the fallback of EvaluateExpression (a failed run is repeated on the env
+   path) the cache is invisible, whatever rows a cached program accepts: *)
+From SV Require Import Model.ProgCache Proofs.ProgCacheProofs.
+
+Theorem C05_cache_invisible : forall cache row e,
+  fst (cached_eval true cache row e) = bx (terase row) e.
+Proof. exact cache_invisible. Qed.
+Print Assumptions C05_cache_invisible.
+
+(* the value of a row does not depend on the rows evaluated before it, nor on their Go types *)
+Theorem C05_cache_history_free : forall h cache row e,
+  after_history true cache h row e = bx (terase row) e.
+Proof. exact cache_history_free. Qed.
+Print Assumptions C05_cache_history_free.
+
+(* a program runs on the row it was compiled against: the first row of a text (the `fresh` reference of
+   the T lines: a spelling nothing else is evaluated with) never depends on the fallback *)
+Theorem C05_cache_first_row : forall fallback row e,
+  fst (cached_eval fallback None row e) = bx (terase row) e.
+Proof. exact cache_first_row. Qed.
+Print Assumptions C05_cache_first_row.
+
+Theorem C05_cache_no_fallback_value_or_error : forall cache row e,
+  fst (cached_eval false cache row e) = bx (terase row) e \/ fst (cached_eval false cache row e) = OErr.
+Proof. exact cache_no_fallback_value_or_error. Qed.
+Print Assumptions C05_cache_no_fallback_value_or_error.
+
+(* that spelling: further parentheses around a parenthesised item change neither the evaluator nor the value *)
+Theorem C05_item_extra_parens : forall row e,
+  expr_item_value row (ETop (EParen (EParen e))) = expr_item_value row (ETop (EParen e)).
+Proof. exact item_extra_parens. Qed.
+Print Assumptions C05_item_extra_parens.
+
+Theorem C05_direct_extra_parens : forall row e out items1 items2 w,
+  direct {| q_items := items1 ++ IExpr (ETop (EParen (EParen e))) out :: items2; q_where := w |} row =
+  direct {| q_items := items1 ++ IExpr (ETop (EParen e)) out :: items2; q_where := w |} row.
+Proof. exact direct_extra_parens. Qed.
+Print Assumptions C05_direct_extra_parens.
+
+(* ... and the fallback is needed: a cached program whose failure is final (fallback = false) makes
+   (c == 7) NULL for {c: 7.0 (float64)} after {c: 7 (int)}, true without that history, and true either
+   way with the fallback *)
+Example C05_cache_without_fallback_history_dependent :
+  let c := [99]%N in
+  let e := EParen (ECmp CEq2 (ECol c) (ENum 7)) in
+  let first := [(c, (GInt, VNum 7))] in let row := [(c, (GFloat, VNum 7))] in
+  after_history false None [first] row e = OErr /\
+  after_history false None [] row e = OVal (VBool true) /\
+  after_history true None [first] row e = OVal (VBool true) /\
+  after_history false None [row] first e = OVal (VBool true).
+Proof. vm_compute. repeat split; reflexivity. Qed.
